@@ -13,6 +13,7 @@ import (
 	"k8s.io/apimachinery/pkg/util/intstr"
 	utilpointer "k8s.io/utils/pointer"
 	"sigs.k8s.io/controller-runtime/pkg/client"
+	gatewayv1beta1 "sigs.k8s.io/gateway-api/apis/v1beta1"
 )
 
 // StepSpec is one step of a scenario's plan.
@@ -170,6 +171,23 @@ func (sc *Scenario) Build(w *World) error {
 			Spec: netv1.IngressSpec{Rules: []netv1.IngressRule{{Host: "demo.example.com", IngressRuleValue: netv1.IngressRuleValue{HTTP: &netv1.HTTPIngressRuleValue{
 				Paths: []netv1.HTTPIngressPath{{Path: "/", PathType: &pt, Backend: netv1.IngressBackend{Service: &netv1.IngressServiceBackend{Name: AppName, Port: netv1.ServiceBackendPort{Number: 80}}}}}}}}}}}
 		if err := w.Raw.Create(ctx, ing); err != nil {
+			return err
+		}
+	}
+	if sc.Traffic == "gateway" {
+		kind := gatewayv1beta1.Kind("Service")
+		group := gatewayv1beta1.Group("")
+		port := gatewayv1beta1.PortNumber(80)
+		weight := int32(1)
+		pathType := gatewayv1beta1.PathMatchPathPrefix
+		path := "/"
+		rt := &gatewayv1beta1.HTTPRoute{ObjectMeta: metav1.ObjectMeta{Namespace: ns, Name: AppName},
+			Spec: gatewayv1beta1.HTTPRouteSpec{Rules: []gatewayv1beta1.HTTPRouteRule{{
+				Matches: []gatewayv1beta1.HTTPRouteMatch{{Path: &gatewayv1beta1.HTTPPathMatch{Type: &pathType, Value: &path}}},
+				BackendRefs: []gatewayv1beta1.HTTPBackendRef{{BackendRef: gatewayv1beta1.BackendRef{
+					BackendObjectReference: gatewayv1beta1.BackendObjectReference{Group: &group, Kind: &kind, Name: AppName, Port: &port}, Weight: &weight}}},
+			}}}}
+		if err := w.Raw.Create(ctx, rt); err != nil {
 			return err
 		}
 	}
